@@ -310,8 +310,15 @@ def write_replay(pid, n, payload):
 def write_evidence(pid, tier, seed, coverage, wall, violations, assumptions=None):
     d = os.path.join(ROOT, "evidence")
     os.makedirs(d, exist_ok=True)
+    level = "proof"
+    try:
+        for c in json.load(open(os.path.join(ROOT, "MANIFEST.json")))["checks"]:
+            if c["property_id"] == pid:
+                level = c["level_claimed"]["category"]
+    except Exception:
+        pass
     ev = {
-        "property_id": pid, "tier": tier, "seed": seed, "level": "proof",
+        "property_id": pid, "tier": tier, "seed": seed, "level": level,
         "coverage": coverage, "wall_s": round(wall, 2), "violations": violations,
         "assumptions": assumptions or [],
     }
